@@ -11,7 +11,7 @@ from sa.fd import Sym
 from sa.pm import FuncInfo, call_name, norm, self_attr, walk_local_ordered
 from sa.report import Ob, rule
 
-from .common import attr_stores, ob, strip_ret, traces
+from .common import attr_stores, expand, ob, strip_ret, traces
 
 INFO = 'zeroconf._services.info.ServiceInfo'
 RESULT_FIELDS = {'_ipv4_addresses', '_ipv6_addresses', 'text', 'server', 'server_key', 'port', 'weight', 'priority', '_name', 'key'}
@@ -347,6 +347,28 @@ def bound(ctx: Any) -> List[Ob]:
     from .c17 import lookup_listener_obligations
 
     obs.extend(lookup_listener_obligations(ctx, R))
+    # `returns no later than its timeout`: the wait helper arms its timer for exactly the time it was given (milliseconds, converted
+    # once) -- a floor or rounding added there for the benefit of another caller lets the last wait of a lookup overrun its deadline
+    wf = prog.func('zeroconf._utils.asyncio.wait_for_future_set_or_timeout')
+    p_to = wf.params[2]
+    arm = [c for c in walk_local_ordered(wf.node) if isinstance(c, ast.Call) and call_name(c) in ('call_later', 'call_at')]
+    ok_w, why_w = False, 'no timer is armed'
+    if len(arm) == 1 and call_name(arm[0]) == 'call_later' and arm[0].args:
+        a0 = arm[0].args[0]
+        inner = a0.args[0] if isinstance(a0, ast.Call) and call_name(a0) == 'millis_to_seconds' and a0.args else None
+        try:
+            if inner is not None:
+                pw = lf.poly(prog, wf.module, expand(wf, inner), lambda x: 'T' if isinstance(x, ast.Name) and x.id == p_to else None)
+                ok_w, why_w = pw == lf.parse_poly('T'), lf.p_str(pw)
+            else:
+                pw = lf.poly(prog, wf.module, expand(wf, a0), lambda x: 'T' if isinstance(x, ast.Name) and x.id == p_to else None)
+                ok_w, why_w = pw == lf.parse_poly('T / 1000'), lf.p_str(pw)
+        except lf.NotLinear as e_:
+            why_w = f'the delay is not the timeout itself: {e_}'
+    obs.append(ob(R, wf, arm[0] if arm else 'loop.call_later(millis_to_seconds(timeout), ...)', 'the wait ends no later than the time it was given: the timer is armed for exactly `timeout` milliseconds', ok_w, why_w))
+    aw_f = prog.func('zeroconf._services.info.ServiceInfo.async_wait')
+    fw = [c for c in walk_local_ordered(aw_f.node) if isinstance(c, ast.Call) and call_name(c) == 'wait_for_future_set_or_timeout']
+    obs.append(ob(R, aw_f, fw[0] if fw else 'wait_for_future_set_or_timeout(loop, futures, timeout)', 'the lookup hands its wait time to the helper unchanged', len(fw) == 1 and len(fw[0].args) == 3 and norm(fw[0].args[2]) == aw_f.params[1]))
     # timeout test precedes send and wait inside the loop
     loop_t = [n for n in cfg.nodes if n.kind == 'loop_test']
     if len(loop_t) != 1:
